@@ -578,7 +578,8 @@ def parseChunk(raw):  # reading transfer encoded raw
     try:
         size = int(size.strip().decode('ascii'), 16)
     except ValueError:  # bad size
-        raise
+        raise HTTPException("Invalid chunk size line '{0}'".format(
+                                bytes(line).decode('iso-8859-1')))
 
     if exts:  # parse extensions parameters
         exts = exts.split(b';')
@@ -615,7 +616,7 @@ def parseChunk(raw):  # reading transfer encoded raw
             (yield None)
 
         if line:  # not empty so raise error
-            raise ValueError("Chunk end error. Expected empty got "
+            raise HTTPException("Chunk end error. Expected empty got "
                      "'{0}' instead".format(line.decode('iso-8859-1')))
 
     (yield (size, parms, trails, chunk))
